@@ -156,6 +156,11 @@ pub(crate) fn replay_wal(
 		let mut batches_in_segment = 0;
 		let mut last_valid_offset = 0;
 
+		// Batches of this segment replayed so far, kept so that the segment's
+		// memtable can be rebuilt with a larger arena (see ArenaFull below).
+		let mut segment_batches: Vec<Batch> = Vec::new();
+		let mut segment_arena_size = arena_size;
+
 		// Process each record in this segment
 		loop {
 			match reader.read() {
@@ -182,25 +187,42 @@ pub(crate) fn replay_wal(
 					match current_memtable.add(&batch) {
 						Ok(()) => {}
 						Err(Error::ArenaFull) => {
-							// Edge case: single segment exceeds memtable capacity
-							if current_memtable.is_empty() {
-								return Err(Error::Other(format!(
-									"Batch too large for memtable (batch size exceeds arena_size={})",
-									arena_size
-								)));
-							}
-							// Save current memtable and create new one
+							// The segment holds more than a memtable of the configured size
+							// can take (the segment was appended to after an earlier
+							// recovery, max_memtable_size was lowered, or one batch is
+							// simply larger than the arena). Keep ONE memtable per
+							// segment and give it a larger arena: once any memtable of a
+							// segment is flushed the manifest's log_number moves past
+							// that segment, so a segment split over several memtables
+							// would be skipped by the next recovery while its tail is
+							// still unflushed.
 							log::warn!(
-								"WAL segment #{:020} exceeds single memtable capacity, splitting",
+								"WAL segment #{:020} exceeds single memtable capacity, enlarging",
 								segment_id
 							);
-							memtables.push((Arc::clone(&current_memtable), segment_id));
-							current_memtable = Arc::new(MemTable::new(arena_size));
-							// Retry on fresh memtable
-							current_memtable.add(&batch)?;
+							loop {
+								segment_arena_size = segment_arena_size.saturating_mul(2);
+								let bigger = MemTable::new(segment_arena_size);
+								let mut fits = true;
+								for b in segment_batches.iter().chain(std::iter::once(&batch)) {
+									match bigger.add(b) {
+										Ok(()) => {}
+										Err(Error::ArenaFull) => {
+											fits = false;
+											break;
+										}
+										Err(e) => return Err(e),
+									}
+								}
+								if fits {
+									current_memtable = Arc::new(bigger);
+									break;
+								}
+							}
 						}
 						Err(e) => return Err(e),
 					}
+					segment_batches.push(batch);
 				}
 				Err(WalError::Corruption(err)) => {
 					log::error!(
